@@ -15,6 +15,11 @@ subprocess.run(['git', '-C', wt, 'checkout', '--', '.'], check=True)
 # evaluate on top of the repaired tree (/repo's committed HEAD), not on the commit the worktree was created at
 head = subprocess.run(['git', '-C', '/repo', 'rev-parse', 'HEAD'], capture_output=True, text=True).stdout.strip()
 subprocess.run(['git', '-C', wt, 'checkout', '-q', '--detach', head], check=True)
+if subprocess.run(['git', '-C', wt, 'apply', '--check', patch], capture_output=True).returncode != 0:
+    # the patch touches lines a later repair changed: evaluate it on the commit it was written against
+    base = os.environ.get('VERIF_MUTANT_BASE', 'b751187')
+    print('NOTE patch does not apply to HEAD, evaluated on', base)
+    subprocess.run(['git', '-C', wt, 'checkout', '-q', '--detach', base], check=True)
 subprocess.run(['git', '-C', wt, 'apply', patch], check=True)
 try:
     os.makedirs(simdir, exist_ok=True)
